@@ -8,6 +8,7 @@ import ast
 
 from ..core.absint import Interp, alternatives, pretty
 from ..core.analysis import Analysis, assigned_names, facts
+from ..core.astutil import handler_catches, order_rel
 from ..core.cfg import decompose_guard
 from ..core.forms import canon
 from ..core.pyrepo import Repo, calls_in, dotted, norm_stmt
@@ -74,7 +75,6 @@ def run(ctx):
 
     # withheld link: ENOENT *and* ESRCH (psutil issue #503: readlink on <pid>/exe
     # races to ESRCH) take the liveness path, not the error translator
-    from ..core.astutil import handler_catches
     rlm = repo.func(pm, "Process._readlink")
     rcfg = A.cfg(rlm)
     rcalls = [c for c in calls_in(rlm.node) if dotted(c.func) == "readlink"]
@@ -176,8 +176,9 @@ def run(ctx):
         stop = False
         for b in brk:
             for e, p, _ in pcfg.guards(b):
-                tx = norm_stmt(e).replace(" ", "")
-                if p is True and tx in (f"{nxt}<={pos}", f"{pos}>={nxt}"):
+                if p is True and order_rel(e) == (nxt, "<=", pos):
+                    stop = True
+                if p is False and order_rel(e) == (pos, "<", nxt):
                     stop = True
         if not stop:
             probs.append(f"the loop does not stop when {nxt} <= {pos} (an empty entry / no "
@@ -199,7 +200,8 @@ def run(ctx):
                   and isinstance(n.stmt.targets[0], ast.Subscript)
                   and dotted(n.stmt.targets[0].value) == "ret"]
         if not stores or not all(
-                any(norm_stmt(e).replace(" ", "") == f"{eq}>{pos}" and p is True
+                any((order_rel(e) == (pos, "<", eq) and p is True)
+                    or (order_rel(e) == (eq, "<=", pos) and p is False)
                     for e, p, _ in pcfg.guards(n)) for n in stores):
             probs.append(f"entries are recorded without requiring {eq} > {pos} (an entry "
                          f"without '=' or starting with '=' must be ignored)")
